@@ -8,7 +8,8 @@
    requirement and usage (C11_release_restores_partial: one location, one level; the induction over whole
    histories and several jobs is C11_release below, on the flat single-location domain);
    the model's free_loc / reserve_level perform exactly that arithmetic (C11_free_is_sub_then_add).
-   Refuted: C11_double_release_needs_conformance (a non-conformant RUNNING after COMPLETED releases twice: negative
+   Refuted: C11_out_of_order_running_refuted (the property text says "regardless of the order of notifications": FALSE of the code — a RUNNING
+   notified after COMPLETED makes the job running again with nothing reserved and the next terminal notification releases twice: negative
    cores); C11_shared_inner_leak_refuted (known finding: doubled inner requirement reserved, single released). *)
 From Coq Require Import List Bool ZArith NArith.
 From SF Require Import Base.Str Hardware.Model Hardware.Proofs Sched.Model Sched.Proofs Sched.History Sched.Stacked Sched.StackedHist Sched.Witness Sched.Examples.
@@ -119,7 +120,11 @@ Example C11_plain_history :
   no_active (run init plain_history) = true.
 Proof. vm_compute. split; reflexivity. Qed.
 
-Theorem C11_double_release_needs_conformance :
+(* The unrestricted text ("regardless of the order of notifications", quantifier "duplicated and out-of-order
+   notifications") is FALSE of notify_status: RUNNING, COMPLETED, RUNNING (late), COMPLETED releases twice.  Known finding
+   (known/C11.txt, corpus/C11/known-*late-running*.json).  C11_release holds on the histories in which RUNNING is notified
+   only to a fireable/running job ([conf]); duplicates of any status and any order of the other statuses are covered. *)
+Theorem C11_out_of_order_running_refuted :
   exists h, ledger (run init double_release_history) "n0" = Some h /\ cores h = -2 /\ mem h = -4 /\
             no_active (run init double_release_history) = true.
 Proof. eexists. vm_compute. repeat split; reflexivity. Qed.
@@ -144,5 +149,5 @@ Print Assumptions C11_release_loc.
 Print Assumptions C11_release_stacked.
 Print Assumptions C11_unstacked_wrapper_reserves_first_level_only.
 Print Assumptions C11_unstacked_wrapper_releases_first_level_only.
-Print Assumptions C11_double_release_needs_conformance.
+Print Assumptions C11_out_of_order_running_refuted.
 Print Assumptions C11_shared_inner_leak_refuted.
